@@ -402,6 +402,7 @@ def run(P, R, tier):
     if sub_err is None:
         R.floor('C18.c', 'write-target obligations of the packing tasks', k, 2)
     common.fresh_arguments(P, R, 'C18.d', floor=12)
+    common.evaluated_once(P, R, 'C18.c', 'concurrent pack_partitions_to_parquet calls (or any two calls in one process) that rely on it write into the same "unique" directories')
     # C18.e: objects shared between threads (arrays, indexes, frames) are not written by their query methods; only constructors and the
     # enumerated lazily-built caches store attributes (the check-then-build race of those caches is NOT decided, see module docstring)
     # transient helper objects: a class all of whose instances are created inside a property that returns them at once (`obj.cx` builds a new indexer
